@@ -579,10 +579,14 @@ func (s *Store) gcIndex(ctx context.Context) error {
 			continue
 		}
 		// check if the referrers manifest can traverse to the existing graph
-		subject := &desc
+		current := desc
 		for {
-			subject, err := manifestutil.Subject(ctx, s.storage, *subject)
+			subject, err := manifestutil.Subject(ctx, s.storage, current)
 			if err != nil {
+				if errors.Is(err, errdef.ErrNotFound) {
+					// the chain ends at a manifest that is not in the storage
+					break
+				}
 				return err
 			}
 			if subject == nil {
@@ -598,6 +602,8 @@ func (s *Store) gcIndex(ctx context.Context) error {
 				}
 				break
 			}
+			// continue with the subject of the subject
+			current = *subject
 		}
 	}
 	s.tagResolver = tagResolver
